@@ -81,6 +81,22 @@ def free_layouts(stmt, rng, limit):
         for style in (1, 2, 3):
             yield [head(stmt, "", style) + tokens_text(toks)], []
             yield [head(stmt, " ", style) + tokens_text(toks[:1]) + " &", "  &" + tokens_text(toks[1:])], []
+    if label is not None or name is not None:
+        # the continuation point directly after the label / the construct name
+        for style in (0, 1):
+            h = head(stmt, "", style).rstrip()
+            yield [h + " &", "  " + tokens_text(toks)], []
+            yield [h + "&", "  &" + tokens_text(toks)], []
+            yield [h + " &", "  ! after the head", "", "  " + tokens_text(toks)], ["! after the head"]
+            yield [h + " & ! on the head", "", "  &" + tokens_text(toks) + " ! end"], ["! on the head", "! end"]
+    # a trailing comment that repeats text found inside a literal of the statement (after a '!' there, or the whole rest)
+    for t in toks:
+        if t[0] in "'\"" and "!" in t:
+            inner = t[1:-1]
+            tail = inner[inner.index("!"):]
+            for com in (tail, tail.split("'")[0].split('"')[0].rstrip() or "!", "!", "!" + tail[1:3]):
+                if com.strip():
+                    yield [head(stmt) + tokens_text(toks) + " " + com], [com.rstrip()]
     # 1. split at every token boundary, with / without leading &
     splits = []
     for k in range(1, len(toks)):
